@@ -209,7 +209,14 @@ def execute(sc):
             return None
         # unphased view gives the same limits
         try:
-            um = DenseGenotypeMatrix(mat.sum(0, dtype="int8"), taxa=pop.taxa, taxa_grp=pop.taxa_grp, vrnt_chrgrp=pop.vrnt_chrgrp, vrnt_phypos=pop.vrnt_phypos, ploidy=2)
+            def _unphased(pl):
+                return DenseGenotypeMatrix(mat.sum(0, dtype="int8"), taxa=pop.taxa, taxa_grp=pop.taxa_grp, vrnt_chrgrp=pop.vrnt_chrgrp, vrnt_phypos=pop.vrnt_phypos, ploidy=pl)
+            # the ploidy may be handed over as a NumPy integer scalar; a class that refuses it is given a Python int
+            try:
+                um = _unphased(numpy.int8(2) if ix % 2 else numpy.int64(2))
+                faults["numpy_scalar_ploidy_accepted"] = faults.get("numpy_scalar_ploidy_accepted", 0) + 1
+            except TypeError:
+                um = _unphased(2)
             usl_u, lsl_u = numpy.array(gm.usl(um), dtype=float), numpy.array(gm.lsl(um), dtype=float)
             usl_a = numpy.array(gm.usl(mat.sum(0).astype(float)), dtype=float)
             if numpy.any(usl_u != usl) or numpy.any(lsl_u != lsl) or numpy.any(~(numpy.abs(usl_a - usl) <= tolb)):
